@@ -24,6 +24,8 @@ CLAIMED = {
             "1D M=3 (thorough: also M=2,4), 2D 2x3, 3D 2x2x2; explicit positive step and unsorted index arrays are accepted as either refused or well-formed (stated leniency)", "DESIGN.md 5/C11"),
     "C12": ("Bounded symbolic model checking of the (derivation x later mutation x mutated side) matrix over 1D/2D, static and adaptive histograms: for every listed derivation (copy, + - * /, normalize, merge_bins, slices/masks/index arrays, T, partial_normalize, accumulate, projection, integer/slice select, JSON round trip, sum()) and every later mutation (fill, fill_n incl. adaptive growth by a symbolic number of bins, += *= /=, dtype change, metadata edit, in-place merge) the snapshot of the object NOT mutated is term-equal before and after for all symbolic contents/arguments, and both objects stay well-formed; copy() equality and the usable empty copy. The numpy model implements views, so memory sharing through slices is visible.",
             "M=3 bins 1D, 2x2 2D, growth by <=3 bins, ~390 (derivation, mutation, side) instances (quick); thorough adds the remaining combinations", "DESIGN.md 5/C12"),
+    "C08": ("Bounded symbolic model checking of save_json/parse_json/load_json, create_from_dict, require_compatible_version, find_subclass, to_dict/_kwargs_from_dict/from_dict of every histogram class and every binning class, HistogramCollection.to_dict/from_dict: with symbolic contents, errors2, missed values, binning parameters the parsed object has the same class, per-axis binning class/parameters/right-edge flag/adaptivity, term-equal edges/contents/errors2/missed, equal dtype, keep_missed and metadata, compares == and re-serialises to the identical tree; version gate for symbolic release numbers via the real packaging comparison.",
+            "2 bins per axis; classes 1D, 2D, 3D, the seven transformed classes, collection of 2; seven binning kinds; json text layer and open() are stubs (tree in = tree out)", "DESIGN.md 5/C08"),
 }
 
 REASONS_NOT_YET = "check not built yet (work in progress; see DESIGN.md section 8 build order)"
